@@ -18,7 +18,10 @@ PROP = "C18"
 
 TARGETS = {"mac": [("p.eth.src", 6, 6), ("p.eth.dst", 0, 6)],
            "ipv4": [("p.eth.ipv4.src", 14 + 12, 4), ("p.eth.ipv4.dst", 14 + 16, 4)],
-           "ipv6": [("p.eth.ipv6.src", 14 + 8, 16), ("p.eth.ipv6.dst", 14 + 24, 16)]}
+           "ipv6": [("p.eth.ipv6.src", 14 + 8, 16), ("p.eth.ipv6.dst", 14 + 24, 16)],
+           # the same headers behind an 802.1Q tag (another path through the layer cache)
+           "ipv4/vlan": [("p.eth.vlan.ipv4.src", 18 + 12, 4), ("p.eth.vlan.ipv4.dst", 18 + 16, 4)],
+           "ipv6/vlan": [("p.eth.vlan.ipv6.src", 18 + 8, 16), ("p.eth.vlan.ipv6.dst", 18 + 24, 16)]}
 
 
 def structured_v6(rnd):
@@ -43,6 +46,10 @@ def structured_v6(rnd):
 
 
 def frame_for(fam, rnd=None):
+    if fam.endswith("/vlan"):
+        inner = frame_for(fam.split("/")[0], rnd)
+        et = inner[12:14]
+        return inner[:12] + b"\x81\x00" + pcapfmt.vlan(vid=7)[:2] + et + inner[14:]
     if fam == "ipv6":
         if rnd and rnd.random() < 0.6:
             return pcapfmt.eth(etype=0x86DD) + pcapfmt.ipv6(payload_len=8, nh=17, src=structured_v6(rnd), dst=structured_v6(rnd)) + pcapfmt.udp()
@@ -66,26 +73,30 @@ def run(rep, tier, seed):
         jobs = []
         ins = {}
         for fam in TARGETS:
-            ins[fam] = os.path.join(d, "in_%s.pcap" % fam)
+            ins[fam] = os.path.join(d, "in_%s.pcap" % fam.replace("/", "_"))
             with open(ins[fam], "wb") as f:
                 f.write(pcapfmt.pcap_file([frame_for(fam)]))
         n = 0
         for c in cases:
             text = "".join(chr(x) for x in c["text"])
-            for ti, (tgt, off, ln) in enumerate(TARGETS[c["fam"]]):
+            variants = list(enumerate(TARGETS[c["fam"]]))
+            if c["fam"] != "mac" and c["id"] % 4 == 0:
+                variants.append((2, TARGETS[c["fam"] + "/vlan"][0]))
+            for ti, (tgt, off, ln) in variants:
                 if ti == 1 and c["tag"].startswith("valid") and n % 3:
                     n += 1
                     continue
+                famkey = c["fam"] + "/vlan" if ti == 2 else c["fam"]
                 out = os.path.join(d, "o%d.pcap" % len(jobs))
                 src = ('let OBS = [];\nlet f = pcap_open("%s");\nlet p = pcap_read_next(f);\nlet o = pcap_open("%s", "w");\n'
-                       '%s = "%s";\npush(OBS, %s);\npcap_write(o, p);\n' % (ins[c["fam"]], out, tgt, text, tgt))
+                       '%s = "%s";\npush(OBS, %s);\npcap_write(o, p);\n' % (ins[famkey], out, tgt, text, tgt))
                 jobs.append({"id": len(jobs), "kind": "assign", "fam": c["fam"], "tag": c["tag"], "text": c["text"],
                              "src": src, "out": out, "off": off, "len": ln, "orig": []})
                 n += 1
         # display round trip on random addresses: read src text, assign it to dst
         nrand = 300 if tier == "quick" else 5000
         for i in range(nrand):
-            fam = rnd.choice(["mac", "ipv4", "ipv6"])
+            fam = rnd.choice(["mac", "ipv4", "ipv6", "ipv6", "ipv4/vlan", "ipv6/vlan"])
             fr = frame_for(fam, rnd)
             inp = os.path.join(d, "r%d.pcap" % i)
             with open(inp, "wb") as f:
@@ -94,7 +105,7 @@ def run(rep, tier, seed):
             out = os.path.join(d, "ro%d.pcap" % i)
             src = ('let OBS = [];\nlet f = pcap_open("%s");\nlet p = pcap_read_next(f);\nlet o = pcap_open("%s", "w");\n'
                    'let t = %s;\npush(OBS, t);\n%s = t;\npush(OBS, %s);\npcap_write(o, p);\n' % (inp, out, s_t, d_t, d_t))
-            jobs.append({"id": len(jobs), "kind": "display", "fam": fam, "tag": "display", "text": None, "src": src,
+            jobs.append({"id": len(jobs), "kind": "display", "fam": fam.split("/")[0], "tag": "display", "text": None, "src": src,
                          "out": out, "off": d_off, "len": ln, "orig": list(fr[s_off:s_off + ln])})
         res = core.run_cases([{"id": j["id"], "src": j["src"]} for j in jobs])
         recs = []
